@@ -113,10 +113,8 @@ func (p *Prog) substFrame(fr *Frame, s *Sym) *Sym {
 	}
 	if s.Op == "param" {
 		if par, ok := s.V.(*ssa.Parameter); ok && fr != nil && fr.Site != nil && fr.Parent != nil && par.Parent() == fr.Fn {
-			idx := paramIndex(fr.Fn, par)
-			args := fr.Site.Common().Args
-			if idx >= 0 && idx < len(args) {
-				return p.substFrame(fr.Parent, p.Sym(args[idx])).StripInst()
+			if a, afr, okA := fr.Arg(paramIndex(fr.Fn, par)); okA {
+				return p.substFrame(afr, p.Sym(a)).StripInst()
 			}
 		}
 		return s
@@ -419,6 +417,17 @@ func (p *Prog) valueEscapes(v ssa.Value, accept func(user ssa.Instruction, val s
 						}
 					}
 					continue
+				}
+				// a product function reached through a method value / function-typed parameter
+				if t, targs, _ := p.funcValueTarget(nil, x); t != nil {
+					if _, isGo := r.(*ssa.Go); !isGo {
+						for i, a := range targs {
+							if a == v && i < len(t.Params) {
+								walk(t.Params[i])
+							}
+						}
+						continue
+					}
 				}
 				if !accept(x, v) {
 					out = append(out, fmt.Sprintf("passed to %s at %s", p.calleeName(x.Common()), p.InstrPos(x)))
